@@ -61,7 +61,7 @@ func c01RaceCall(m *vk.M, desc string, b Breaker, name string, kind string, name
 			pr.Accept()
 			return true, true, true
 		}
-		pr.Reject("c01 race reason")
+		pr.Reject(c01Reasons[id%len(c01Reasons)])
 		return true, false, true
 	}
 	var ranReq, ranFb int
